@@ -155,6 +155,8 @@ class G2:
             prev = [o["bank"] for o in self.occ if o["coll"] != name]
             if prev and r.random() < 0.15:
                 bank = r.choice(prev)  # deliberately the bank name another collection of this query already uses
+            if r.random() < qgen.P_ODD_BANK or (any(":" in o["bank"] for o in self.occ) and r.random() < 0.8):
+                bank = qgen.odd_bank(r, name, bank, self.occ)
             self.occ.append({"coll": name, "bank": bank, "type": c["ctype"], "uncond": self.uncond and not env["objs"] and not env["nums"]})
             return f'e.{name}("{bank}")', c["etype"]
         if k == "subs":
